@@ -119,6 +119,7 @@ const CredSet *creds_get(int depth, int tlcp)
 	static int have[4][2];
 	if (depth < 1 || depth > 3) die("bad depth %d", depth);
 	if (!have[depth][tlcp]) {
+		if (t_task >= 0) die("creds_get(%d,%d) first used inside a task: would draw from the task's entropy stream", depth, tlcp);
 		/* the same credentials in every process, whatever was built before */
 		sim_ambient_entropy_seed(0xC0FFEE00 + (uint64_t)depth * 2 + (uint64_t)tlcp);
 		if (creds_build(&cache[depth][tlcp], depth, tlcp) != 1) die("creds_build failed depth=%d tlcp=%d", depth, tlcp);
